@@ -109,6 +109,41 @@ def _op_keys(ops):
     return keys
 
 
+def k15_dir_name_too_long(label, ops, problem):
+    """K15 (C03): dir_archive creates the directory 'K_' + str(key); when that name is longer than the file
+    system allows for one path component (255 bytes) the mkdir fails and the store is silently dropped, where a
+    dict holds the key afterwards.  Matches only that: right after a store, exactly the too-long key(s) just
+    stored are missing from the archive, nothing else is missing, extra or changed."""
+    if not label.startswith('dir'):
+        return False
+    op = problem.get('op') or ()
+    if not op or op[0] not in ('set', 'setdefault', 'update'):
+        return False
+    if 'missing' not in problem or problem.get('extra') or problem.get('changed') or not problem['missing']:
+        return False
+    toolong = set()
+    for k in _op_keys([op]):
+        try:
+            if len(('K_' + _dir_name(k)).encode()) > 255:
+                toolong.add(repr(k))
+        except Exception:
+            pass
+    return bool(toolong) and set(problem['missing']) <= toolong
+
+
+def probe_k15_dir_name_too_long():
+    import shutil
+    import tempfile
+    import klepto.archives as ar
+    d = tempfile.mkdtemp(prefix='k15probe')
+    try:
+        a = ar.dir_archive(os.path.join(d, 'a.d'), cached=False)
+        a['M' * 300] = 1
+        return 'M' * 300 not in dict(a.items())
+    finally:
+        shutil.rmtree(d, ignore_errors=True)
+
+
 def k9_dir_source_name(label, ops, problem):
     """K9 (C03): dir_archive(serialized=False) reads entries with "from K_<name> import memo": a key whose
     directory name is not a valid module name is stored without error but can never be read back."""
